@@ -822,7 +822,7 @@ def feval(t, env, funcs=None, mp=None):
                 v = f(*a)
             else:
                 raise EvalError(op)
-        except (ZeroDivisionError, OverflowError, ValueError, EvalError) as e:
+        except (ZeroDivisionError, OverflowError, ValueError, EvalError, IndexError, KeyError) as e:
             v = _Err(f"{type(e).__name__}: {e} at {op}")
         memo[n] = v
     r = memo[t]
